@@ -217,10 +217,12 @@ func equalsV(t types.Type, x, y value) value {
 	if isSym(x) || isSym(y) {
 		return symBinop(token.EQL, t, x, y)
 	}
-	if _, ok := x.(sstr); ok {
+	switch x.(type) {
+	case sstr, lazyStr:
 		return strEq(x, y)
 	}
-	if _, ok := y.(sstr); ok {
+	switch y.(type) {
+	case sstr, lazyStr:
 		return strEq(x, y)
 	}
 	switch x := x.(type) {
@@ -445,6 +447,9 @@ func writeValue(buf *bytes.Buffer, v value) {
 	case sstr:
 		buf.WriteString(v.String())
 
+	case lazyStr:
+		buf.WriteString(v.String())
+
 	case *gchan:
 		fmt.Fprintf(buf, "%p", v) // (an address)
 
@@ -539,4 +544,3 @@ func (it *stringIter) next() tuple {
 	it.i += n
 	return okv
 }
-
